@@ -244,21 +244,9 @@ func errEdgeQuery(s *Scope, site *ast.CallExpr, top ast.Node, target EvPred, exi
 		return QResult{}, false
 	}
 	q := Query{
-		Start:  func(sub, _ ast.Node) bool { return sub == ast.Node(site) },
-		Target: target,
-		Exempt: func(facts []Fact) bool {
-			for _, f := range facts {
-				if f.Tag != nil {
-					continue
-				}
-				if o, trueNonNil, ok := nilTest(s.Info, f.Expr); ok && o == obj {
-					if f.Val != trueNonNil { // err is nil on this edge
-						return true
-					}
-				}
-			}
-			return false
-		},
+		Start:               func(sub, _ ast.Node) bool { return sub == ast.Node(site) },
+		Target:              target,
+		FailObj:             obj,
 		ExitIsTarget:        exitIsTarget,
 		OnlyNilErrorReturns: exitIsTarget,
 	}
